@@ -542,3 +542,101 @@ Proof.
   intros Hsz H. destruct (run_gens_spec _ _ _ _ (inv_new sz Hsz) eq_refl H) as (Hm & Hi & _).
   split; [exact Hm|apply Hi].
 Qed.
+
+(* ------------------------------------------------------------------ *)
+(* every Read is offered exactly [size] bytes: the free room never exceeds
+   size, and the growth test restores it to size whenever it is less *)
+Definition tight (r : lr) : Prop := cap r - length (buf r) <= size r.
+
+Lemma space_grow_exact r : length (buf r) <= cap r -> tight r -> space (grow r) = size r.
+Proof.
+  unfold tight, space, grow. intros Hc Ht.
+  destruct (Nat.ltb_spec (cap r - length (buf r)) (size r)); cbn [cap buf set_cap]; lia.
+Qed.
+
+Lemma read_and_send_tight r chunk ls r' :
+  inv r -> tight r -> length chunk <= space (grow r) ->
+  read_and_send r chunk = (ls, r') -> tight r'.
+Proof.
+  intros ((Ho & Hb & Hprev) & Hno & Hcap & Hsz) Ht Hfit H.
+  pose proof (space_grow_exact r Hcap Ht) as Hsp. rewrite Hsp in Hfit.
+  destruct (grow_fields r) as (Gb & Go & Gs & Gbad).
+  assert (Gc : cap (grow r) - length (buf r) = size r) by (unfold space in Hsp; rewrite Gb in Hsp; exact Hsp).
+  unfold read_and_send in H.
+  set (r2 := set_buf (grow r) (buf (grow r) ++ chunk)) in *.
+  assert (Hb2 : buf r2 = buf r ++ chunk) by (unfold r2; cbn [buf set_buf]; rewrite Gb; reflexivity).
+  assert (Hc2 : cap r2 = cap (grow r)) by reflexivity.
+  assert (Hs2 : size r2 = size r) by (unfold r2; cbn [size set_buf]; exact Gs).
+  assert (Ho2 : off r2 = off r) by (unfold r2; cbn [off set_buf]; exact Go).
+  assert (Hwf2 : wf r2).
+  { unfold wf. rewrite Hb2, Ho2. unfold r2; cbn [bad set_buf]. rewrite Gbad.
+    repeat split; [rewrite app_length; lia|exact Hb|].
+    destruct Hprev as [Hz|Hp]; [left; exact Hz|].
+    destruct (Nat.eq_dec (off r) 0) as [Hz|Hnz]; [left; exact Hz|].
+    right. rewrite app_nth1 by lia. exact Hp. }
+  destruct (0 <? length chunk) eqn:Epos.
+  - destruct (send_loop (S (length (buf r2))) r2) as [ls3 r3] eqn:El.
+    injection H as <- <-.
+    assert (Hfuel : length (pending r2) < S (length (buf r2))).
+    { unfold pending. rewrite skipn_length. lia. }
+    destruct (send_loop_spec _ _ _ _ Hwf2 Hfuel El) as (_ & (Ho3 & _ & _) & _ & Hb3 & Hc3 & Hs3).
+    unfold reslice. rewrite slice_to_end by exact Ho3. unfold tight. cbn [cap buf size].
+    rewrite skipn_length, Hb3, Hc3, Hs3, Hb2, Hc2, Hs2, app_length. lia.
+  - injection H as <- <-. unfold tight. rewrite Hb2, Hc2, Hs2, app_length. lia.
+Qed.
+
+Lemma tight_new sz : tight (new_lr sz).
+Proof. unfold tight, new_lr; cbn. lia. Qed.
+
+(* datagram reads: what is framed is every datagram cut to the reader's size *)
+Lemma run_dg_spec dgs : forall r os r',
+  inv r -> tight r -> run_dg r dgs = (os, r') ->
+  split (pending r) (concat (map (firstn (size r)) dgs)) = (emitted os, pending r') /\
+  inv r' /\ Forall (fun o => o_space o = size r) os.
+Proof.
+  induction dgs as [|c rest IH]; intros r os r' Hinv Ht H; cbn [run_dg] in H.
+  - injection H as <- <-. cbn. auto.
+  - pose proof Hinv as (Hwf & Hno & Hcap & Hsz).
+    pose proof (space_grow_exact r Hcap Ht) as Hsp. rewrite Hsp in H.
+    destruct (read_and_send r (firstn (Nat.min (length c) (size r)) c)) as [ls r1] eqn:Er.
+    destruct (run_dg r1 rest) as [os1 r2] eqn:Eg. injection H as <- <-.
+    assert (Hfit : length (firstn (Nat.min (length c) (size r)) c) <= space (grow r)).
+    { rewrite firstn_length, Hsp. lia. }
+    destruct (read_and_send_refines _ _ _ _ Hinv Hfit Er) as (Hsplit & Hinv1 & Hs1).
+    pose proof (read_and_send_tight _ _ _ _ Hinv Ht Hfit Er) as Ht1.
+    destruct (IH _ _ _ Hinv1 Ht1 Eg) as (Hsplit1 & Hinv2 & Hall).
+    assert (Hcut : firstn (Nat.min (length c) (size r)) c = firstn (size r) c).
+    { destruct (Nat.le_ge_cases (length c) (size r)) as [Hle|Hge].
+      - rewrite Nat.min_l by exact Hle. rewrite !firstn_all2 by lia. reflexivity.
+      - rewrite Nat.min_r by exact Hge. reflexivity. }
+    split; [|split; [exact Hinv2|]].
+    + cbn [map concat]. rewrite split_app, <- Hcut, Hsplit. rewrite Hs1 in Hsplit1. rewrite Hsplit1.
+      reflexivity.
+    + constructor; [reflexivity|]. rewrite Hs1 in Hall. exact Hall.
+Qed.
+
+Theorem deliver_dg_cut sz dgs : 1 <= sz ->
+  deliver_dg sz dgs = frame (concat (map (firstn sz) dgs)).
+Proof.
+  intros Hsz. unfold deliver_dg. destruct (run_dg (new_lr sz) dgs) as [os r] eqn:E.
+  destruct (run_dg_spec _ _ _ _ (inv_new sz Hsz) (tight_new sz) E) as (Hs & _ & _).
+  change (pending (new_lr sz)) with (@nil byte) in Hs. change (size (new_lr sz)) with sz in Hs.
+  unfold frame, finish. rewrite Hs. reflexivity.
+Qed.
+
+(* datagrams that fit the read buffer are delivered whole *)
+Corollary deliver_dg_fits sz dgs : 1 <= sz -> Forall (fun d => length d <= sz) dgs ->
+  deliver_dg sz dgs = frame (concat dgs).
+Proof.
+  intros Hsz Hall. rewrite deliver_dg_cut by exact Hsz. f_equal. f_equal.
+  induction Hall as [|d l Hd _ IH]; cbn [map]; [reflexivity|].
+  rewrite firstn_all2 by exact Hd. rewrite IH. reflexivity.
+Qed.
+
+(* every datagram read is offered exactly the configured size *)
+Theorem dg_reads_offered_size sz dgs : 1 <= sz ->
+  Forall (fun o => o_space o = sz) (fst (run_dg (new_lr sz) dgs)).
+Proof.
+  intros Hsz. destruct (run_dg (new_lr sz) dgs) as [os r] eqn:E.
+  exact (proj2 (proj2 (run_dg_spec _ _ _ _ (inv_new sz Hsz) (tight_new sz) E))).
+Qed.
